@@ -300,6 +300,7 @@ func c15Encode(o *c15Opts) []byte {
 			fdc[t][cat]++
 		}
 	}, func(t, rs, _ int) { fac[t][rs]++ })
+	c15LastFreq.DC, c15LastFreq.AC = fdc, fac
 	var dc, ac [2]*c15Huff
 	if o.Optimise {
 		for t := 0; t < 2 && (t == 0 || nc == 3); t++ {
@@ -599,6 +600,9 @@ var c15ZRL int
 
 // c15LastSyms: (RS, amplitude bits) of the AC symbols written by the last c15Encode
 var c15LastSyms [][2]int
+
+// c15LastFreq: symbol statistics (DC, AC per table) gathered by the last c15Encode
+var c15LastFreq struct{ DC, AC [2][257]int }
 
 func c15Fail(c *hx.Ctx, f hx.Failure) {
 	c15FailSeen[f.Class]++
@@ -1038,6 +1042,11 @@ func c15Correspondence(c *hx.Ctx) {
 		}
 		c.Case(fmt.Sprintf("jpg-acblock %d %s", dc, c11Ints(ac)), line)
 	}
+	// parseDRI's expression (unexported): the generated kernel against the value the DRI segment declares; the real decoder
+	// is tied by the large-Ri reference streams of the search (a lost high byte makes them undecodable)
+	for _, v := range []int{0, 1, 255, 256, 257, 300, 700, 1024, 4095, 65535} {
+		c.Case(fmt.Sprintf("jpg-dri %d %d", v>>8, v&255), fmt.Sprintf("ok %d", v))
+	}
 	// restart-marker skipping
 	for k := 0; k < 200; k++ {
 		n := c.R.Range(0, 40)
@@ -1194,6 +1203,28 @@ func c15(c *hx.Ctx) {
 				for _, d := range c15Decs {
 					c15Compare(c, d, s, "ref-"+c15Samplings[si].Name, in)
 				}
+			}
+		}
+	}
+	// restart intervals of 255 MCUs and more (two-byte Ri with a non-zero high byte) on images with more than 1024 MCUs
+	for _, ri := range []int{255, 256, 257, 300, 700, 1024} {
+		for _, g := range []struct{ w, h, comps, si int }{{264, 256, 1, 0}, {520, 512, 3, 2}, {264, 512, 3, 1}} {
+			if g.comps == 3 && !c.Thorough() && ri != 256 && ri != 300 {
+				continue
+			}
+			px := c11Pack(c11Content(c.R, g.w, g.h, g.comps, 8, []int{0, 3, 6}[ri%3]), 8)
+			qt := c15ScaledTables(60 + ri%35)
+			o := &c15Opts{W: g.w, H: g.h, QT: qt, GreyID: 1, Restart: ri, Optimise: ri%2 == 0}
+			if g.comps == 1 {
+				o.QT = qt[:1]
+			}
+			o.Planes = c15FromImage(px, g.w, g.h, g.comps, c15Samplings[g.si].H, c15Samplings[g.si].V, qt)
+			s := c15Encode(o)
+			in := map[string]any{"source": "reference-encoder", "width": g.w, "height": g.h, "components": g.comps, "sampling": c15Samplings[g.si].Name,
+				"restartInterval": ri, "pixels-sha": fmt.Sprintf("%d bytes (seeded noise/gradient/nyquist)", len(px)), "stream": hx.Hex(s[:64]) + "…"}
+			c.Count("ref:restart-ri>=255")
+			for _, d := range c15Decs {
+				c15Compare(c, d, s, "ref-large-ri", in)
 			}
 		}
 	}
